@@ -137,7 +137,12 @@ func (ks *FSKeystore) Delete(name string) error {
 
 	kp := filepath.Join(ks.dir, name)
 
-	return os.Remove(kp)
+	err = os.Remove(kp)
+	if errors.Is(err, fs.ErrNotExist) {
+		// Deleting a key that is not there is a no-op, as in MemKeystore.
+		return nil
+	}
+	return err
 }
 
 // List return a list of key identifier
